@@ -750,7 +750,9 @@ func c05Strace(c *vk.Ctx) bool {
 	base := 14000 + c.Batch*10
 	cf := ConfSpec{Services: []SvcSpec{{Listeners: []LnSpec{{"tcp", fmt.Sprintf("203.0.113.70:%d", base)}, {"udp", fmt.Sprintf("203.0.113.70:%d", base)}}, Keys: []KeySpec{k}}}}
 	tracePath := c.RunDir + "/strace.out"
-	srv, err := StartServer(c.RunDir, cf, ServerOpts{Strace: tracePath})
+	// every other batch with debug logging on: the destination policy does not depend on the log level
+	verbose := c.Batch%2 == 1
+	srv, err := StartServer(c.RunDir, cf, ServerOpts{Strace: tracePath, Verbose: verbose})
 	if err != nil {
 		c.Inconclusive("server under strace did not start: " + err.Error())
 		if srv != nil {
@@ -828,6 +830,7 @@ func c05Strace(c *vk.Ctx) bool {
 		return true
 	}
 	c.Count("syscalls_classified", int64(nClassified))
+	c.Count(fmt.Sprintf("syscall_monitor_runs_verbose=%v", verbose), 1)
 	return true
 }
 
@@ -851,7 +854,7 @@ func init() {
 		RaceUpgrade: func(report string) (string, bool) {
 			// The destination policy is shared by every connection and datagram. A data race inside it
 			// (the package outline-ss-server/net) means its answer for some address is undefined.
-			if strings.Contains(report, "outline-ss-server/net.") {
+			if strings.Contains(report, "outline-ss-server/net.") || strings.Contains(report, "makeValidatingTCPStreamDialer") {
 				return "C05/destination-policy-state-accessed-without-synchronisation", true
 			}
 			return "", false
@@ -859,7 +862,7 @@ func init() {
 		ExhaustiveCounter: "ipv4_addresses_enumerated",
 		ExhaustiveMin:     1 << 32,
 		Run: func(c *vk.Ctx) {
-			for _, s := range []string{"validator_addresses_checked", "tcp_forbidden_requests_refused", "tcp_public_requests_served", "udp_forbidden_datagrams_dropped_on_live_association", "udp_public_datagrams_forwarded", "udp_outbound_writes_classified", "syscalls_classified", "two_listener_floods"} {
+			for _, s := range []string{"validator_addresses_checked", "tcp_forbidden_requests_refused", "tcp_public_requests_served", "udp_forbidden_datagrams_dropped_on_live_association", "udp_public_datagrams_forwarded", "udp_outbound_writes_classified", "syscalls_classified", "two_listener_floods", "syscall_monitor_runs_verbose=true", "syscall_monitor_runs_verbose=false"} {
 				c.Require(s)
 			}
 			if !c05Sweep(c) {
